@@ -330,7 +330,8 @@ def install():
     def _localize(interp, args, kwargs, node, frame):
         return args[0]
 
-    libmodels.LIB_CONSTANTS = getattr(libmodels, "LIB_CONSTANTS", {})
+    if not hasattr(libmodels, "LIB_CONSTANTS"):
+        libmodels.LIB_CONSTANTS = {}
     libmodels.LIB_CONSTANTS["pandas.Timestamp.min"] = Timestamp(z3.IntVal(TS_MIN))
     libmodels.LIB_CONSTANTS["pandas.Timestamp.max"] = Timestamp(z3.IntVal(TS_MAX))
 
